@@ -2,64 +2,11 @@
 (* Behaviour generator for C43 (manager level): RouteMgr's actions over a concrete message universe with a
    history variable.  cover: one behaviour per transition of the abstract state graph (small universe);
    simulate: random walks over the large universe (all pool kinds, borrowed and tunnel addresses).   *)
-EXTENDS RouteMgr, TLC, Json
+EXTENDS RouteMgr, RouteUniverse, TLC, Json
 
 CONSTANTS SimLen, Msgs, VtepAddrs, HostAddrs
 VARIABLE hist
 gvars == <<routes, vtep, host, parentKnown, hist>>
-
-C(a, n) == [a |-> a, n |-> n]
-R(cidr, rw, lw, rt, pool, node, ip, same, lwl, bor) ==
-    [present |-> TRUE, cidr |-> cidr, rw |-> rw, lw |-> lw, rt |-> rt, pool |-> pool, node |-> node,
-     node_ip |-> ip, same |-> same, local_wl |-> lwl, borrowed |-> bor]
-M(d, r) == [dst |-> d, r |-> r]
-
-B2 == C(<<10, 0, 2, 0>>, 26)
-B3 == C(<<10, 0, 3, 0>>, 26)
-LB == C(<<10, 0, 1, 0>>, 26)
-W1 == C(<<10, 0, 1, 7>>, 32)
-A2 == C(<<10, 0, 3, 5>>, 32)
-T2 == C(<<10, 0, 2, 1>>, 32)
-T3 == C(<<10, 0, 3, 9>>, 32)
-Ip2 == "172.0.0.3"
-Ip2b == "172.0.0.33"
-Ip3 == "172.9.0.3"
-Remote(d, c, pool, node, ip, same) == M(d, R(c, TRUE, FALSE, FALSE, pool, node, ip, same, FALSE, FALSE))
-
-MsgsCover == {
-    Remote("10.0.2.0/26", B2, "vxlan", "n2", Ip2, FALSE),
-    Remote("10.0.2.0/26", B2, "vxlan", "n2", Ip2, TRUE),
-    Remote("10.0.2.0/26", B2, "none", "n2", Ip2, FALSE),
-    M("10.0.1.0/26", R(LB, FALSE, TRUE, FALSE, "vxlan", "n1", "172.0.0.2", TRUE, FALSE, FALSE)),
-    M("10.0.1.7/32", R(W1, FALSE, TRUE, FALSE, "vxlan", "n1", "172.0.0.2", TRUE, TRUE, FALSE)),
-    M("10.0.1.7/32", R(W1, FALSE, TRUE, FALSE, "vxlan", "n1", "172.0.0.2", TRUE, FALSE, FALSE)) }
-MsgsBig == MsgsCover \cup {
-    Remote("10.0.2.0/26", B2, "vxlan", "n2", Ip2b, TRUE),
-    Remote("10.0.2.0/26", B2, "ipip", "n2", Ip2, FALSE),
-    Remote("10.0.2.0/26", B2, "ipip", "n2", Ip2, TRUE),
-    Remote("10.0.2.0/26", B2, "none", "n2", Ip2b, FALSE),
-    Remote("10.0.2.0/26", B2, "", "n2", Ip2, FALSE),
-    Remote("10.0.3.0/26", B3, "vxlan", "n3", Ip3, FALSE),
-    Remote("10.0.3.0/26", B3, "ipip", "n3", Ip3, FALSE),
-    Remote("10.0.3.0/26", B3, "none", "n3", Ip3, FALSE),
-    \* an address of n3's block borrowed by a workload on n2
-    M("10.0.3.5/32", R(A2, TRUE, FALSE, FALSE, "vxlan", "n2", Ip2, TRUE, FALSE, TRUE)),
-    M("10.0.3.5/32", R(A2, TRUE, FALSE, FALSE, "vxlan", "n2", Ip2, FALSE, FALSE, TRUE)),
-    M("10.0.3.5/32", R(A2, TRUE, FALSE, FALSE, "ipip", "n2", Ip2, FALSE, FALSE, TRUE)),
-    \* n2's tunnel address (a /32 block of its own), and a tunnel address n2 borrowed from n3's block
-    M("10.0.2.1/32", R(T2, TRUE, FALSE, TRUE, "vxlan", "n2", Ip2, FALSE, FALSE, FALSE)),
-    M("10.0.3.9/32", R(T3, FALSE, FALSE, TRUE, "vxlan", "n2", Ip2, FALSE, FALSE, TRUE)),
-    M("10.0.3.9/32", R(T3, FALSE, FALSE, TRUE, "ipip", "n2", Ip2, FALSE, FALSE, TRUE)),
-    M("10.0.1.0/26", R(LB, FALSE, TRUE, FALSE, "ipip", "n1", "172.0.0.2", TRUE, FALSE, FALSE)),
-    M("10.0.1.0/26", R(LB, FALSE, TRUE, FALSE, "none", "n1", "172.0.0.2", TRUE, FALSE, FALSE)),
-    M("10.0.1.7/32", R(W1, FALSE, TRUE, FALSE, "none", "n1", "172.0.0.2", TRUE, TRUE, FALSE)) }
-
-\* node -> possible VTEP addresses / host addresses ("" = host metadata without an IPv4 address)
-VtepCover == [n1 |-> {"10.0.1.1"}, n2 |-> {"10.0.2.1", "10.0.2.99"}, n3 |-> {}]
-VtepBig == [n1 |-> {"10.0.1.1"}, n2 |-> {"10.0.2.1", "10.0.2.99"}, n3 |-> {"10.0.3.1"}]
-HostCover == [n1 |-> {"172.0.0.2"}, n2 |-> {}, n3 |-> {}]
-HostBig == [n1 |-> {"172.0.0.2", ""}, n2 |-> {Ip2, Ip2b}, n3 |-> {Ip3}]
-GDsts == { m.dst : m \in MsgsBig }
 
 GInit == Init /\ hist = <<>>
 Step(a, r) == a /\ hist' = Append(hist, r)
